@@ -1,7 +1,7 @@
 CONSTANTS
   Variant = "fixed"
   XVariant = "fixed"
-  RuleIds = {1, 3, 4, 5, 8, 10, 32}
+  RuleIds = {3, 4, 5, 8, 10, 32}
   K = 2
   Toks <- TokS
   MaxParts = 2
@@ -12,4 +12,3 @@ CONSTANTS
 INIT Init
 NEXT Next
 INVARIANT ImplInExpectedX
-INVARIANT AdapterOpsInContract
